@@ -72,16 +72,21 @@ def structured(fam, rng):
     for _ in range(3):
         a_, b_ = rng.randrange(Q), rng.randrange(Q)
         out.append([a_] * n)
+        out.append([a_ if i % 2 == 0 else (-a_) % Q for i in range(n)])
+        out.append([b_, (-b_) % Q] + [rng.randrange(Q) for _ in range(n - 2)])
         if n >= 6:
             x_, y_ = [a_, b_], [rng.randrange(Q), rng.randrange(Q)]
-            for pat in ("xyy", "xxy", "yxy", "xxx"):
+            nx_, ny_ = [(-c) % Q for c in x_], [(-c) % Q for c in y_]
+            # repeated components, and components that are negatives of each other (a linear relation INSIDE one operand)
+            for pat in ("xyy", "xxy", "yxy", "xxx", "xyY", "xXy", "yxX", "xXx", "XxX", "xyz"):
                 v = []
                 for ch in pat:
-                    v += x_ if ch == "x" else y_
+                    v += {"x": x_, "y": y_, "X": nx_, "Y": ny_}.get(ch) or [(-(x_[i] + y_[i])) % Q for i in range(2)]    # z: x + y + z = 0
                 out.append(v if n == 6 else v + [rng.randrange(Q) for _ in range(6)])
                 if n == 12:
                     out.append([rng.randrange(Q) for _ in range(6)] + v)
                     out.append(v + v)
+                    out.append(v + [(-c) % Q for c in v])
     # elements of the subfields that are NOT coefficient patterns of the tower: Fq3 in Fq6 / Fq12, Fq4 in Fq12 (traces)
     if n >= 6:
         for d in ((3,) if n == 6 else (3, 4)):
@@ -219,6 +224,10 @@ def run_shard(shard, tier, seed, wd, res):
                 s.op("fq2.mul_nr", r2(rng.choice([0, 0, 1, 2])))
                 s.op("fq2.norm", r2(rng.choice([0, 0, 1, 2])))
         elif fam == "fq6":
+            # structured MULTIPLICANDS (repeated / opposite components, constants) against random sparse operands
+            for a_ in structured("fq6", rng):
+                s.op("fq6.mul_by_1", mk(a_), r2(0))
+                s.op("fq6.mul_by_01", mk(a_), r2(0), r2(0))
             for _ in range(reps):
                 for zm in range(4):
                     for zm2 in range(4):
@@ -226,6 +235,8 @@ def run_shard(shard, tier, seed, wd, res):
                         s.op("fq6.mul_by_1", a, r2(zm))
                         s.op("fq6.mul_by_01", a, r2(zm), r2(zm2))
         else:
+            for a_ in structured("fq12", rng):
+                s.op("fq12.mul_by_014", mk(a_), r2(0), r2(0), r2(0))
             for _ in range(reps):
                 for zm in range(64):
                     a = mk(rand_coeffs(rng, 12, rng.choice([0, 0, 0, rng.getrandbits(12)])))
